@@ -28,12 +28,48 @@ func init() {
 				"request-specific adjustment (AD bit, ECS echo) and after hop-by-hop data is removed, and re-applies those " +
 				"adjustments on the hit path.",
 			NotCovered: "the rounding amount of the served TTL, LRU eviction, that the cache library honours the expiry (trusted).",
-			Rules: map[string]string{"C04-R20": "ecscache.itemFromCache returns a miss when the stored item belongs to another host (64-bit key collision; shared with C12-R6)", "C04-R19": "ecscache ServeDNS: between the GeoIP subnet lookup and the cache lookup, the flag that separates the cache key of zero-prefix requests (isECSDeclined) is set from the length of the looked-up subnet: the answer an ECS-aware upstream gives to a /0 (scope 0, generic) is not stored under the key that located clients look up first", "C04-R18": "isCacheableNOERROR (both caches): the authority section qualifies a NODATA answer only through an SOA record", "C04-R16": "the main middleware disposes of the original response only when a different one was written (a response that is written, cached and disposed twice aliases pooled records; shared with C07-R3)", "C04-R17": "the initial middleware sets AD unconditionally in the request handed to the pipeline, so cached answers carry the upstream's AD for every requester (table shared with C01-R21)", "C04-R15": "ecscache ServeDNS: the upstream request carries the subnet the cache is keyed by (table shared with C05-R1)", "C04-R14": "TTL stores on records that may come from an additional section are guarded by a not-OPT test (the OPT TTL field is extended rcode / version / DO)", "C04-RC": "class rules (error chains, shadowed results, character classes, crossed arguments, pool constructors, array pools, loop completeness, loop-carried buffers, replacing setters, complete clones, Grow arithmetic, pooled-buffer escape, sorted searches, fresh decode targets, per-iteration objects, whole-message copies, codec guards) over the packages this property rests on", "C04-R13": "setECS leaves exactly one subnet option, in requests and responses alike (table shared with C05-R4)", "C04-R12": "cache wrappers (agdcache, ecscache, dnsserver/cache) use every parameter: key, value and expiration reach the wrapped cache", "C04-R1": "served TTL aged on every path", "C04-R2": "cache key completeness", "C04-R3": "cacheability and store tables",
+			Rules: map[string]string{"C04-R22": "respIsECSDependent: an answer with a non-zero scope for a name outside the fake-ECS list goes to the subnet-keyed cache (table shared with C05-R16)", "C04-R21": "dnsmsg.IsDO looks the OPT record up wherever it stands in the additional section (Msg.IsEdns0) and reports its DO bit: a request with a record after the OPT record (TSIG, SIG(0)) is keyed under its real DO setting", "C04-R20": "ecscache.itemFromCache returns a miss when the stored item belongs to another host (64-bit key collision; shared with C12-R6)", "C04-R19": "ecscache ServeDNS: between the GeoIP subnet lookup and the cache lookup, the flag that separates the cache key of zero-prefix requests (isECSDeclined) is set from the length of the looked-up subnet: the answer an ECS-aware upstream gives to a /0 (scope 0, generic) is not stored under the key that located clients look up first", "C04-R18": "isCacheableNOERROR (both caches): the authority section qualifies a NODATA answer only through an SOA record", "C04-R16": "the main middleware disposes of the original response only when a different one was written (a response that is written, cached and disposed twice aliases pooled records; shared with C07-R3)", "C04-R17": "the initial middleware sets AD unconditionally in the request handed to the pipeline, so cached answers carry the upstream's AD for every requester (table shared with C01-R21)", "C04-R15": "ecscache ServeDNS: the upstream request carries the subnet the cache is keyed by (table shared with C05-R1)", "C04-R14": "TTL stores on records that may come from an additional section are guarded by a not-OPT test (the OPT TTL field is extended rcode / version / DO)", "C04-RC": "class rules (error chains, shadowed results, character classes, crossed arguments, pool constructors, array pools, loop completeness, loop-carried buffers, replacing setters, complete clones, Grow arithmetic, pooled-buffer escape, sorted searches, fresh decode targets, per-iteration objects, whole-message copies, codec guards) over the packages this property rests on", "C04-R13": "setECS leaves exactly one subnet option, in requests and responses alike (table shared with C05-R4)", "C04-R12": "cache wrappers (agdcache, ecscache, dnsserver/cache) use every parameter: key, value and expiration reach the wrapped cache", "C04-R1": "served TTL aged on every path", "C04-R2": "cache key completeness", "C04-R3": "cacheability and store tables",
 				"C04-R4": "lowest-TTL helper table", "C04-R5": "hit-path coverage and store ordering", "C04-R6": "cached items are private deep copies"},
 		}})
 }
 
 func runC04(c *an.Ctx) {
+	// ---- R22: which cache an upstream answer goes to (shared with C05-R16)
+	c.Floor("C04-R22", 1)
+	c.Borrow("C04-R22", runC05, func(o an.Obligation) bool { return o.Rule == "C05-R16" })
+	// ---- R21: the DO bit of a request is read from its OPT record wherever that stands
+	c.Floor("C04-R21", 1)
+	decide(c, "C04-R21", "dnsmsg.IsDO", an.DecideCfg{
+		Dom: an.Domain{"opt": an.Bools, "do": an.Bools},
+		OnCall: func(it *an.Interp, name string, args []an.AV) (an.AV, bool) {
+			switch name {
+			case "(*github.com/miekg/dns.Msg).IsEdns0":
+				if len(args) != 1 || args[0].String() != "p0" {
+					return an.Sym("OPT of another message"), true
+				}
+				if it.Feature("opt").IsTrue() {
+					return an.NonNil("opt"), true
+				}
+				return an.Nil(), true
+			case "(*github.com/miekg/dns.OPT).Do":
+				if len(args) != 1 || args[0].String() != "nonnil:opt" {
+					return an.Sym("DO of another record"), true
+				}
+				return it.Feature("do"), true
+			}
+			return an.AV{}, false
+		},
+		Expect: func(f an.Features, o an.AOutcome) string {
+			if !o.HasCall("(*github.com/miekg/dns.Msg).IsEdns0") {
+				return "the OPT record looked up with Msg.IsEdns0 (anywhere in the additional section)"
+			}
+			want := f.B("opt") && f.B("do")
+			if o.RetString() == fmt.Sprint(want) {
+				return ""
+			}
+			return fmt.Sprint(want)
+		},
+	})
 	// ---- R20: the collision guard of the ECS cache (shared with C12-R6)
 	c.Floor("C04-R20", 1)
 	c.Borrow("C04-R20", runC12, func(o an.Obligation) bool { return o.Rule == "C12-R6" && strings.Contains(o.Key, "ecscache.") })
